@@ -296,6 +296,7 @@ class Case:
         self.tables = None
         self.pre = None          # a path parsed right before the case (ambient history), bytes
         self.alias = False       # build equal sub-containers as one shared Go object
+        self.keyc = None         # [(quote code point or 0 for the dot spelling, key code points)]: path == Coq chain_path
         self.keyq = None         # (quote code point, key code points): the driver confirms path == Coq key_path
 
     def go_json(self):
@@ -334,6 +335,8 @@ class Case:
                  '(docs %s)' % ' '.join(doc_sx(d) for d in self.docs)]
         if self.keyq:
             parts.append('(keyq %d %s)' % (self.keyq[0], ' '.join(str(x) for x in self.keyq[1])))
+        if self.keyc:
+            parts.append('(keyc %s)' % ' '.join('(%d %s)' % (q, ' '.join(str(x) for x in k)) for q, k in self.keyc))
         parts.append('(mode %s))' % self.mode)
         return ' '.join(parts)
 
